@@ -9,7 +9,7 @@ ops (fields separated by `:`):
   `ix:mfid`  `em:spk:mfid:track`  `dm:spk:mfid`
   `ak:kid:0|1`  `ek:kpk:0|1`  `dk:kpk`
   `am:name:title:periods`  `mm:urlname:bodypk|-:name:title:periods`  `xm:name`
-  periods = `-` or `p/p/…`, p = `pk|-,pid,stream,ordering,t+t|-`
+  periods = `-` or `p/p/…`, p = `pk|-,pid,stream,ordering,t+t|-[,fits(0|1)]`
 
 state: `S[pk,dir,title,tref|…]F[pk,name,stream,blob,track.ctype.enc|-,errs]B[pk,filename]K[pk,kid,computed]`
 `L[media.key]M[pk,name,title]P[pk,pid,parent,stream,ordering]A[pk,period,track]D[dir/filename=idx.ctype.track.enc.kids.badlang]`,
@@ -38,6 +38,9 @@ def parsePSpec (s : String) : Option PSpec :=
   | [pk, pid, st, o, tr] => do
     some { pk := ← parseOptNat pk, pid := pid, stream := ← parseNat st, ordering := ← parseNat o,
            tracks := ← parsePlusNats tr }
+  | [pk, pid, st, o, tr, fits] => do
+    some { pk := ← parseOptNat pk, pid := pid, stream := ← parseNat st, ordering := ← parseNat o,
+           tracks := ← parsePlusNats tr, fits := ← parseBool fits }
   | _ => none
 
 def parsePeriods (s : String) : Option (List PSpec) :=
